@@ -951,3 +951,85 @@ func scenCompactionGrid(e *engineA) error {
 	}
 	return e.finish()
 }
+
+func init() { scenarios["stale-queue-reelection"] = scenStaleQueueReelection }
+
+// scenStaleQueueReelection (C07 / C03): a leader loses leadership while an
+// update is pending at index k; another leader writes its own entry at k,
+// which reaches the old leader but is not yet known to be committed there;
+// the old leader is elected again (told to time out now), so that its new
+// no-op lands at k+1. Whatever the old leader still holds for index k from
+// its first leadership must not reach its state machine.
+func scenStaleQueueReelection(e *engineA) error {
+	e.prof = profiles["general"]
+	if err := e.boot(3); err != nil {
+		return err
+	}
+	e.cl.startInfoSampler(e.hb() / 2)
+	l := e.cl.leader()
+	if l == nil {
+		return fmt.Errorf("no leader")
+	}
+	for i := 0; i < 3+e.rng.Intn(3); i++ {
+		e.cl.fsmOp(1, l, "update")
+	}
+	e.sleepHB(1, 2)
+	base, _ := l.info(false)
+	k := base.LastLogIndex + 1
+	e.rc.emit(&ev.Rec{K: "fault", Op: "isolate-leader-with-pending-update", Nid: l.nid, Idx: k})
+	e.isolate(l, true)
+	for i := 0; i < 1+e.rng.Intn(2); i++ {
+		go e.cl.fsmOp(2, l, "update")
+	}
+	fs := e.others(l)
+	var n, o *Node
+	if !e.waitFor(100, func() bool {
+		for i, f := range fs {
+			if info, ok := f.info(false); ok && info.State == raft.Leader {
+				n, o = f, fs[1-i]
+				return true
+			}
+		}
+		return false
+	}) {
+		return fmt.Errorf("no second leader")
+	}
+	e.waitFor(40, func() bool {
+		info, ok := l.info(false)
+		return ok && info.State != raft.Leader
+	})
+	// the new leader can no longer commit with o ...
+	e.cutBoth(n, o, true)
+	// ... and the moment its entry at k reaches l, l is cut off from it again
+	var got int32
+	e.rc.onNodeEvent = func(dir string, r *ev.Rec) {
+		if dir == l.dir && r.K == "append" && r.E != nil && r.E.Index >= k && r.St != nil && r.St.State == "F" && atomic.CompareAndSwapInt32(&got, 0, 1) {
+			e.net.Cut(n.label, l.label, true)
+			e.net.Cut(l.label, n.label, true)
+		}
+	}
+	e.rc.emit(&ev.Rec{K: "fault", Op: "heal-old-leader-to-new", Nid: l.nid, ID: n.nid})
+	e.cutBoth(l, n, false)
+	ok := e.waitFor(60, func() bool { return atomic.LoadInt32(&got) == 1 })
+	e.rc.onNodeEvent = nil
+	if !ok {
+		return fmt.Errorf("new leader's entry never reached the old leader")
+	}
+	e.sleepHB(0.5, 1)
+	// l and o can talk; l is told to take over
+	e.rc.emit(&ev.Rec{K: "fault", Op: "timeout-now-old-leader", Nid: l.nid})
+	e.cutBoth(l, o, false)
+	e.wireTimeoutNow(l)
+	e.waitFor(60, func() bool {
+		info, ok := l.info(false)
+		return ok && info.State == raft.Leader
+	})
+	for i := 0; i < 3; i++ {
+		e.cl.fsmOp(1, l, "update")
+		e.cl.fsmOp(1, l, "read")
+	}
+	e.sleepHB(1, 2)
+	e.startClients(2, map[string]int{"update": 3, "read": 2})
+	e.sleepHB(3, 6)
+	return e.finish()
+}
